@@ -81,16 +81,18 @@ LiveCode(fam, c) == LET refs == RefsOfCode(fam, c)
                         tg == [j \in 1..Len(refs) |-> Rooted(Dir(refs[j].o), refs[j].p)]
                         S == LiveSet(refs, tg, {fam.entry}, Len(refs))
                     IN \A j \in 1..Len(refs) : refs[j].o \in S
-Codes(fam) == {c \in UNION {Level(fam, n) : n \in 0..fam.max} : LiveCode(fam, c)}
+\* (no UNION over big sets: TLC's UNION is quadratic; \cup sorts)
+RECURSIVE UpTo(_, _)
+UpTo(fam, n) == IF n = 0 THEN Level(fam, 0) ELSE UpTo(fam, n - 1) \cup Level(fam, n)
+Codes(fam) == {c \in UpTo(fam, fam.max) : LiveCode(fam, c)}
 GraphOf(fi, c) == [files |-> {Fams[fi].files[i] : i \in 1..Len(Fams[fi].files)}, entry |-> Fams[fi].entry, refs |-> RefsOfCode(Fams[fi], c)]
-GraphIds == UNION {{<<fi, c>> : c \in Codes(Fams[fi])} : fi \in 1..Len(Fams)}
 
 VARIABLES st, picked
 vars == <<st, picked>>
 EmptyGraph == [files |-> {}, entry |-> A, refs |-> <<>>]
 \* one initial state and a Pick action (thousands of initial states make TLC's liveness check quadratic)
 Init == picked = FALSE /\ st = InitSt(EmptyGraph)
-Pick == ~picked /\ picked' = TRUE /\ \E gi \in GraphIds : st' = InitSt(GraphOf(gi[1], gi[2]))
+Pick == ~picked /\ picked' = TRUE /\ \E fi \in 1..Len(Fams) : \E c \in Codes(Fams[fi]) : st' = InitSt(GraphOf(fi, c))
 Act(G, E) == picked /\ UNCHANGED picked /\ G /\ st' = Tick(E)
 StartMissing == Act(G_StartMissing(st), E_StartMissing(st))
 StartSyntax == Act(G_StartSyntax(st), E_StartSyntax(st))
@@ -138,9 +140,9 @@ OtherJustified == (Final(st) /\ st.out = "other") => OtherPossible(st.g)
 RunFnAgrees == st.out = "init" => (LET r == ImplRun(st.g) IN Final(r) /\ r.steps <= 2 + Len(st.g.refs) + 2 * Cardinality(st.g.files))
 
 (* ---- case export ---- *)
-\* (a top-level definition: TLC evaluates it once; a LET here would be re-evaluated per element)
-GraphSeq == SetToSeq(GraphIds)
-Cases == [i \in 1..Len(GraphSeq) |-> LET g == GraphOf(GraphSeq[i][1], GraphSeq[i][2]) IN
-            [id |-> i, files |-> Fams[GraphSeq[i][1]].files, entry |-> g.entry, refs |-> g.refs]]
+\* id = family number * 10^7 + position (the sequence is passed as an argument so that it is built once)
+CaseSeqOf(fi, S) == [j \in 1..Len(S) |-> LET g == GraphOf(fi, S[j]) IN
+                       [id |-> fi * 10000000 + j, files |-> Fams[fi].files, entry |-> g.entry, refs |-> g.refs]]
+Cases == FlattenSeq([fi \in 1..Len(Fams) |-> CaseSeqOf(fi, SetToSeq(Codes(Fams[fi])))])
 ASSUME ndJsonSerialize("cases.ndjson", Cases)
 =============================================================================
